@@ -463,12 +463,13 @@ V({
 # -------------------------------------------------------------------------- V13
 V({
     "id": "V13",
-    "title": "may_invalidate: MayInvalidate::{aggregate_tys, aggregate_placeholders, aggregate_projection_tys, aggregate_opaque_ty_tys} (chalk-engine/src/slg.rs)",
+    "title": "may_invalidate: MayInvalidate::{aggregate_tys, aggregate_consts, aggregate_placeholders, aggregate_projection_tys, aggregate_opaque_ty_tys} (chalk-engine/src/slg.rs)",
     "template": "v13_may_invalidate.rs",
     "assumptions": [
-        "V13: callee contracts not verified: aggregate_name_and_substs (iterator+closure: false only if names equal and arguments pairwise instances), aggregate_consts, aggregate_lifetimes (always true)",
+        "V13: callee contracts not verified: aggregate_name_and_substs (iterator+closure: false only if names equal and arguments pairwise instances), aggregate_lifetimes (always true); aggregate_consts IS verified (mutually recursive with aggregate_tys, decreases on term height)",
+        "V13: constants are finite trees (a constant's type is smaller than the constant, an array's length constant smaller than the array type); a canonical constant has a canonical type and is not an inference variable: Const::data's contract; ConcreteConst::const_eq is the interner's (uninterpreted) equality",
         "V13: types are finite trees; canonical forms contain no free inference variables (the code panics on one): Ty::kind's contract",
-        "V13: `ty_instance` is the term-algebra definition of 'instance of' with argument lists / constants abstract",
+        "V13: `ty_instance` / `const_instance` are the term-algebra definition of 'instance of' (types and constants, mutually recursive) with argument lists abstract",
         "V13: the current guidance is LINEAR (every bound variable occurs once), which is what makes '(_, BoundVar) => cannot invalidate' right; linearity is established by the anti-unifier (merge_into_guidance: a fresh variable per position), which is NOT verified (seeded change s-C17 breaks exactly this and is missed)",
     ],
     "trusted": ["chalk-engine MayInvalidate::aggregate_name_and_substs"],
